@@ -66,6 +66,11 @@ Inductive site :=
 | SMask           (* Lindell17 secondary: Paillier masking value *)
 | SPaillierNonce. (* Paillier encryption nonces *)
 
+(* sites drawn by rejection sampling (a Paillier nonce must be a unit below N): the
+   specification gives the minimum number of reads, a rejected sample is drawn again *)
+Definition retry_site (s : site) : bool :=
+  match s with SPaillierNonce => true | _ => false end.
+
 Record draw := mkDraw { d_site : site; d_idx : N; d_kind : kind; d_len : N }.
 
 Definition slice (off len : nat) (t : bytes) : bytes := firstn len (skipn off t).
